@@ -339,3 +339,40 @@ func RunConstAtLeast(c *Ctx, rule, pkg, name string, min int64) {
 	}
 	c.R.Fail("anchor-unresolved", pkg+"."+name, rule, "constant not found")
 }
+
+// RunAllowedCallees: the listed functions may call only callees on the allow-list (qualified function name, or bare method name).
+func RunAllowedCallees(c *Ctx, rule string, funcs, allowed []string, why string) {
+	ok := map[string]bool{}
+	for _, a := range allowed {
+		ok[a] = true
+	}
+	for _, name := range funcs {
+		fi := c.P.Fn(name)
+		if fi == nil || fi.Body == nil {
+			c.R.Fail("anchor-unresolved", name, rule, "function not found: re-point the table")
+			continue
+		}
+		tb := &termBuilder{info: fi.Pkg.TypesInfo, inl: map[types.Object]ast.Expr{}, fset: c.P.Fset}
+		ast.Inspect(fi.Body, func(n ast.Node) bool {
+			call, isCall := n.(*ast.CallExpr)
+			if !isCall {
+				return true
+			}
+			if tv, has := fi.Pkg.TypesInfo.Types[call.Fun]; has && tv.IsType() {
+				return true
+			}
+			t := tb.callTerm(call)
+			nm := t.S
+			if t.K == "dyn" {
+				nm = "dynamic:" + t.A[0].String()
+			}
+			good := ok[nm]
+			c.R.Obl(Obligation{Rule: rule, Func: name, Construct: "call " + nm, Pos: c.P.Position(call.Pos()), Discharged: good, Nontrivial: true})
+			if !good {
+				c.R.Find(Finding{Rule: rule, Func: name, Construct: "call of " + nm + " outside the allow-list", Pos: c.P.Position(call.Pos()),
+					Msg: fmt.Sprintf("%s calls %s, which is not on the reviewed allow-list of rule %s (%s)", name, nm, rule, why)})
+			}
+			return true
+		})
+	}
+}
